@@ -21,11 +21,18 @@ LinStep(h) ==
        [] op[h].name = "shmown" -> MOwn(h) /\ op' = [op EXCEPT ![h].st = "done"]
        [] op[h].name = "shmfree" -> MFree(h) /\ op' = [op EXCEPT ![h].st = "done"]
        [] OTHER -> FALSE
-DoLin == (\E h \in Hids : LinStep(h)) /\ UNCHANGED l
+(* a p_shm_new that cannot create the segment (zero size, or a size the system refuses) fails and changes nothing: *)
+(* in particular it leaves no name behind                                                                      *)
+Unsatisfiable(size) == size = 0 \/ size > 1000000000
+LinNewFail(h) == /\ op[h].st = "called" /\ op[h].name = "shmnew" /\ gen[op[h].a] = 0 /\ Unsatisfiable(op[h].b)
+                 /\ op' = [op EXCEPT ![h].st = "failed"] /\ UNCHANGED mvars
+DoLin == (\E h \in Hids : LinStep(h) \/ LinNewFail(h)) /\ UNCHANGED l
 TrRet == /\ IsEvent("ret") /\ Consume
          /\ LET h == Ev.h IN
-            /\ op[h].st = "done" /\ op[h].name = Ev.op /\ Ev.ok = 1
-            /\ Ev.op \in {"shmnew", "shmr", "shmsize"} => Ev.val = op[h].b
+            /\ op[h].name = Ev.op
+            /\ IF op[h].st = "failed" THEN Ev.ok = 0
+               ELSE /\ op[h].st = "done" /\ Ev.ok = 1
+                    /\ Ev.op \in {"shmnew", "shmr", "shmsize"} => Ev.val = op[h].b
             /\ op' = [op EXCEPT ![h] = NoOp]
             /\ IF Ev.op = "shmlock" THEN MLockRet(h) ELSE UNCHANGED mvars
 TrCrash == /\ IsEvent("crash") /\ Consume
